@@ -460,9 +460,20 @@ pub fn run(ctx: &mut Ctx) {
         ctx.model_idx = i;
         explore(&m, ctx);
     }
+    // the race / echo deviations on the full history alphabet (all commit kinds, all seeds)
+    for (i, m) in super::c01::deviation_models("C11", &ctx.tier.clone()).into_iter().enumerate() {
+        ctx.model_idx = 100 + i;
+        explore(&m, ctx);
+    }
 }
 
 pub fn replay(ctx: &mut Ctx, path: &[usize]) {
+    if path[0] >= 100 {
+        let ms = super::c01::deviation_models("C11", &ctx.tier.clone());
+        let Some(m) = ms.get(path[0] - 100) else { crate::engine::machinery("bad model index") };
+        crate::engine::replay(m, ctx, &path[1..]);
+        return;
+    }
     let ms = models(&ctx.tier.clone());
     let Some(m) = ms.get(path[0]) else { crate::engine::machinery("bad model index") };
     crate::engine::replay(m, ctx, &path[1..]);
